@@ -156,6 +156,48 @@ def shrink(ops):
         return ops
 
 
+BIG_N = 2500
+
+
+def big_store_ops():
+    """One long-lived store: BIG_N outbound and 1100 inbound messages of one session, a second session next to it, then
+    range queries of every size, a truncation in the middle and the queries again.  Paging / batching / caching inside
+    the journal only shows on ranges of a thousand rows and more, which the random histories (<= 30 operations) never build."""
+    big = 2 ** 63 - 1
+    ops = [[0, "A", "B"], [0, "C", "D"]]
+    for n in range(1, BIG_N + 1):
+        ops.append([1, 0, 1, b"8=FIX.4.4\x019=5\x0135=D\x0134=%d\x0158=o%d\x0110=000\x01" % (n, n)])
+        if n <= 1100:
+            ops.append([1, 0, 0, b"8=FIX.4.4\x019=5\x0135=8\x0134=%d\x0158=i%d\x0110=000\x01" % (n, n)])
+        if n % 50 == 0:
+            ops.append([1, 1, 1, b"8=FIX.4.4\x019=5\x0135=D\x0134=%d\x0158=other\x0110=000\x01" % (n // 50)])
+    queries = [[3, 0, 1, 1, BIG_N], [3, 0, 1, 1, big], [3, 0, 1, 500, 1999], [3, 0, 1, 1000, 1000], [3, 0, 1, 999, 1001],
+               [3, 0, 1, 1001, 2001], [3, 0, 0, 1, big], [3, 0, 0, 100, 1100], [3, 1, 1, 1, big], [4, 0, 1, 1000], [4, 0, 1, 2000],
+               [6, None, None], [6, [0], 1], [5]]
+    ops += queries
+    ops += [[2, 0, 1500, None]] + queries + [[2, 0, None, 1001]] + queries + [[1, 0, 1, b"8=FIX.4.4\x0134=1500\x01again"]] + queries[:3]
+    return ops
+
+
+def big_store(ctx):
+    ops = big_store_ops()
+    impl = jc.run_impl(ops)
+    ref = RefStore()
+    want = [ref.step(o) for o in ops]
+    ctx.case(("big-store", BIG_N), True)
+    ctx.traces += 1
+    ctx.count("big-store:operations", len(ops))
+    for i, (a, b) in enumerate(zip(impl, want)):
+        if a != b:
+            op = ops[i]
+            what = "implementation returned %d item(s), reference store %d" % (len(a), len(b)) \
+                if isinstance(a, list) and isinstance(b, list) and len(a) != len(b) else \
+                "implementation %r, reference store %r" % (str(a)[:200], str(b)[:200])
+            ctx.fail({"big_store": {"messages": BIG_N}, "step": i, "op": show([op])[0] if op[0] != 1 else ["persist", op[1], op[2]]},
+                     "large store (%d outbound / 1100 inbound messages), step %d %r: %s" % (BIG_N, i, op if op[0] != 1 else "persist", what))
+            break
+
+
 def run(ctx):
     n = ctx.scale(1500, 40000)
     seqs = [jc.gen_ops(ctx.rng, ctx.rng.randrange(3, 31)) for _ in range(n)]
@@ -166,6 +208,7 @@ def run(ctx):
         model_out = ctx.model.batch(["[0,%s]" % jc.sx_ops(s) for s in seqs])
     for ops, mr in zip(seqs, model_out):
         check_seq(ctx, ops, mr)
+    big_store(ctx)
 
 
 def corpus():
@@ -197,6 +240,17 @@ def replay(path):
     if not case:
         print("replay: no concrete input; broken:", rec.get("broken"))
         return 1
+    if case.get("big_store"):
+        ops = big_store_ops()
+        impl = jc.run_impl(ops)
+        ref = RefStore()
+        want = [ref.step(o) for o in ops]
+        bad = [i for i, (a, b) in enumerate(zip(impl, want)) if a != b]
+        for i in bad[:5]:
+            print("step %d %r: implementation and reference store differ (%s items / %s items)" % (
+                i, ops[i] if ops[i][0] != 1 else "persist", len(impl[i]) if isinstance(impl[i], list) else impl[i],
+                len(want[i]) if isinstance(want[i], list) else want[i]))
+        return 1 if bad else 0
     ops = load(case["ops"])
     impl = jc.run_impl(ops)
     ref = RefStore()
